@@ -152,3 +152,42 @@ canary('c04-challenge-field-order', 'C04', HSF, """        let flags = Distribut
         Ok(Self {
             flags,
             challenge,""", 'Challenge::decode')
+
+# ---- C05 ----
+FRM = 'crates/edp_client/src/framing.rs'
+canary('c05-cap-after-alloc', 'C05', FRM, """        if len > MAX_MESSAGE_SIZE {
+            return Err(io::Error::new(
+                io::ErrorKind::InvalidData,
+                format!(
+                    "Message too large: {} bytes (max: {})",
+                    len, MAX_MESSAGE_SIZE
+                ),
+            ));
+        }
+
+        let mut buf = vec![0u8; len];""", """        let mut buf = vec![0u8; len];
+        if len > MAX_MESSAGE_SIZE {
+            return Err(io::Error::new(
+                io::ErrorKind::InvalidData,
+                format!(
+                    "Message too large: {} bytes (max: {})",
+                    len, MAX_MESSAGE_SIZE
+                ),
+            ));
+        }
+""", 'alloc-before-cap')
+canary('c05-short-read', 'C05', FRM, '        reader.read_exact(&mut buf).await?;\n        trace!("Read message data', '        reader.read(&mut buf).await?;\n        trace!("Read message data', 'WHO:')
+canary('c05-write-width', 'C05', FRM, """                let len = data.len() as u32;
+                writer.write_u32(len).await?;""", """                let len = data.len() as u16;
+                writer.write_u16(len).await?;""", 'write_framed')
+canary('c05-le-prefix', 'C05', CONN, 'let len = u32::from_be_bytes(len_bytes);\n                trace!(\n                    "Read message length', 'let len = u32::from_le_bytes(len_bytes);\n                trace!(\n                    "Read message length', 'prefix')
+canary('c05-discard-result', 'C05', FRM, '        reader.read_exact(&mut buf).await?;\n        trace!("Read message data', '        let _ = reader.read_exact(&mut buf).await;\n        trace!("Read message data', 'ERRDISC')
+canary('c05-node-reader-no-cap', 'C05', CONN, """            if len > MAX_MESSAGE_SIZE {
+                return Err(Error::MessageTooLarge {
+                    size: len,
+                    max: MAX_MESSAGE_SIZE,
+                });
+            }
+
+            let mut buf = vec![0u8; len];""", """            let mut buf = vec![0u8; len];""", 'alloc-before-cap')
+canary('c05-framer-extra-byte', 'C05', FRM, '        buf.put_slice(data);\n        buf.to_vec()', '        buf.put_slice(data);\n        buf.put_u8(0);\n        buf.to_vec()', 'WIRE:framing')
